@@ -99,6 +99,7 @@ func (t *Topic) Exiting() bool {
 // to return a pointer to a Channel object (potentially new)
 // for the given Topic
 func (t *Topic) GetChannel(channelName string) *Channel {
+	verifPoint("getchannel:before-lock")
 	t.Lock()
 	channel, isNew := t.getOrCreateChannel(channelName)
 	t.Unlock()
@@ -479,6 +480,7 @@ func (t *Topic) UnPause() error {
 }
 
 func (t *Topic) doPause(pause bool) error {
+	verifPoint("pause:before-flip")
 	if pause {
 		atomic.StoreInt32(&t.paused, 1)
 	} else {
